@@ -332,7 +332,51 @@ def r11_poll_write_accounting(ctx):
            "poll_write queues `%s` but reports %s bytes as written: the caller is told that bytes were accepted which are never sent — the tail of a large write silently disappears" % (fmt(src)[:70], [fmt(r)[:30] for r in rets]))
 
 
+FWD_SINKS = ("AsyncWriteExt::write_all", "Stream::send_data", "Session::write_data_frame")
+FWD_SOURCES = ("AsyncReadExt::read", "StreamReader::read")
+
+
+def r10_forwarding_slices(ctx):
+    """every relay loop forwards exactly what this iteration read: the sink gets buf[..n] (or a copy of it) with buf the buffer
+    this iteration's read filled and n the count that read returned"""
+    n = 0
+    for key, body in ctx.P.scan():
+        if not key.startswith(("client::socks5::", "client::http_proxy::", "server::handler::")):
+            continue
+        rds = [c for c in body.calls() if (c.norm or "").endswith(FWD_SOURCES)]
+        if not rds:
+            continue
+        cfg, o = ctx.cfg(body), ctx.origins(body)
+        for r in rds:
+            if not cfg.in_cycle(r.bb):
+                continue
+            loop = cfg.cycle_blocks(r.bb)
+            sinks = [c for c in body.calls() if c.bb in loop and (c.norm or "").endswith(FWD_SINKS)]
+            if not sinks:
+                continue
+            rbuf = o.of_operand(r.args[1])
+            for s in sinks:
+                n += 1
+                data = o.of_operand(s.args[-1])
+                # find index(buf, RangeTo{n}) inside the data term
+                ok = False
+                det = fmt(data)[:90]
+                for t in subterms(data):
+                    if is_call_term(t, "::index") and len(t[3]) == 2 and isinstance(t[3][1], tuple) and t[3][1][0] == "agg" and "RangeTo" in t[3][1][1] and t[3][1][3]:
+                        same_buf = strip_bb(t[3][0]) == strip_bb(rbuf)
+                        cnt = t[3][1][3][0]
+                        same_n = isinstance(cnt, tuple) and cnt[0] == "call" and cnt[2] == r.bb
+                        no_from = "RangeTo" in t[3][1][1] and "Inclusive" not in t[3][1][1]
+                        ok = same_buf and same_n and no_from
+                owner = key.split("::{closure")[0]
+                ctx.ob("R01.10", "%s|relay:%s<-%s#%d" % (owner, s.norm.split("::")[-1], r.norm.split("::")[-1], n), ok, s.site,
+                       "forwards buf[..n] of this iteration's read" if ok else
+                       "the relay loop forwards `%s`: not exactly buf[..n] for the buffer and count of this iteration's read — bytes are dropped, repeated or stale bytes are sent" % det)
+    ctx.floor("R01.10", "relay loop sinks (socks5, http, server handler)", n, 6)
+
+
 def run(ctx):
+    r10_forwarding_slices(ctx)
     r11_poll_write_accounting(ctx)
     r1_encode_cast(ctx)
     r2_chunking(ctx)
